@@ -25,16 +25,13 @@ structure St where
 def guardKind (c : Cfg) (s : Impl) (op : Op) : String :=
   let pre :=
     match op with
-    | .createAccount _ => if s.guard c op then "ok" else "s8-create-over-storage"
-    | .addBalance _ _ => if s.guard c op then "ok" else "ripemd-touch"
     | .prepare _ => if s.guard c op then "ok" else "inside-transaction"
     | .reset => if s.guard c op then "ok" else "inside-transaction"
     | .finalise false => "finalise-false"
     | .finalise true =>
       if !(s.objs.all fun ao => ao.2.dirtyHasOrigin) then "INVARIANT-BROKEN:dirty-slot-without-origin"
-      else if !(s.objs.all fun ao => !(ao.2.code != 0 && ao.2.dirtyCode && ao.2.code == c.tomb)) then "marker-code"
-      else if s.finaliseGuard c then "ok" else "s8-storage-residue"
-    | _ => "ok"
+      else if s.finaliseGuard c then "ok" else "marker-code"
+    | _ => if s.guard c op then "ok" else "GUARD-UNKNOWN"
   if pre != "ok" then pre
   else if (s.step c op).2 == Out.panic && !s.legitPanic op then "PANIC-NOT-SHARED" else "ok"
 
@@ -94,7 +91,8 @@ def parseNew (toks : List String) : Option St := do
   let balOf (a : Addr) : Nat := (alookup a bal).getD 0
   let w1 : List (Addr × RAcct) := acct.map fun (a, n, h) =>
     (a, { nonce := n, bal := balOf a, code := h, stor := slotsOf a, cstor := slotsOf a, suicided := false })
-  let w2 : List (Addr × RAcct) := (bal.filter fun (a, n) => n ≠ 0 && (alookup a acct).isNone).map fun (a, n) => (a, RAcct.fresh n)
+  let w2 : List (Addr × RAcct) := (bal.filter fun (a, n) => n ≠ 0 && (alookup a acct).isNone).map fun (a, n) =>
+    (a, { RAcct.fresh n with stor := slotsOf a, cstor := slotsOf a })
   pure { cfg := cfg, impl := some (Impl.init st), ref := some (Ref.init (w1 ++ w2)), safe := st.sane }
 
 def parseOp (toks : List String) : Option Op :=
